@@ -14,6 +14,36 @@ fn hexs(b: &[u8]) -> String {
     s
 }
 
+/// Long and structured generator inputs from short fuzzer data: mode 0 as is; 1 run-length pairs (byte, count-1);
+/// 2 the payload repeated 1 + 8*k times -- capped at 96 KiB.
+fn expand(mode: u8, p: &[u8]) -> Vec<u8> {
+    const CAP: usize = 96 * 1024;
+    match mode & 3 {
+        1 => {
+            let mut out = Vec::new();
+            for c in p.chunks(2) {
+                let n = 1 + *c.get(1).unwrap_or(&0) as usize * 5;
+                for _ in 0..n {
+                    if out.len() >= CAP { break; }
+                    out.push(c[0]);
+                }
+            }
+            out
+        }
+        2 => {
+            if p.len() < 2 { return p.to_vec(); }
+            let k = 1 + p[0] as usize * 8;
+            let mut out = Vec::new();
+            for _ in 0..k {
+                if out.len() + p.len() > CAP { break; }
+                out.extend_from_slice(&p[1..]);
+            }
+            out
+        }
+        _ => p.to_vec(),
+    }
+}
+
 macro_rules! lib_ops {
     ($modname:ident, $lib:ident) => {
         mod $modname {
@@ -74,8 +104,9 @@ macro_rules! lib_ops {
                     3 => {
                         if p.is_empty() { return "short".into(); }
                         let step = 1 + p[0] as usize * if aux & 0x80 != 0 { 37 } else { 1 };
+                        let data = super::expand(aux >> 5, &p[1..]);
                         let mut g = $lib::generate::Generator::<T>::new();
-                        for c in p[1..].chunks(step) {
+                        for c in data.chunks(step) {
                             g.update(c);
                         }
                         let l = g.processed_len();
@@ -109,7 +140,8 @@ macro_rules! lib_ops {
                         }
                     }
                     7 => match core::str::from_utf8(p) {
-                        Ok(st) => format!("{} {}", res(st.parse::<T>()), res(T::from_str_with(st, None))),
+                        Ok(st) => format!("{} {} {} {}", res(st.parse::<T>()), res(T::from_str_with(st, None)),
+                                          res(T::from_str_with(st, Some(HexStringPrefix::WithVersion))), res(T::from_str_with(st, Some(HexStringPrefix::Empty)))),
                         Err(_) => "notutf8".into(),
                     },
                     _ => {
@@ -168,8 +200,9 @@ fn case_lines(op: u8, v: u8, aux: u8, p: &[u8]) -> Vec<String> {
                   format!("cmp {} {} {} nolength", vn, hexs(&p[..size]), hexs(&p[size..2 * size]))],
         3 => {
             let step = 1 + p[0] as usize * if aux & 0x80 != 0 { 37 } else { 1 };
+            let data = expand(aux >> 5, &p[1..]);
             let mut s = format!("hist {}", vn);
-            for c in p[1..].chunks(step) {
+            for c in data.chunks(step) {
                 s.push_str(&format!(" u {}", hexs(c)));
             }
             s.push_str(&format!(" l f {} c fd", aux & 31));
@@ -184,7 +217,7 @@ fn case_lines(op: u8, v: u8, aux: u8, p: &[u8]) -> Vec<String> {
             let k = p.iter().position(|&c| c == b'|').unwrap_or(p.len() / 2);
             vec![format!("cmpstr {} {} {}", vn, hexs(&p[..k]), hexs(&p[(k + 1).min(p.len())..]))]
         }
-        7 => vec![format!("fromstr {} {}", vn, hexs(p))],
+        7 => vec![format!("fromstr {} {}", vn, hexs(p)), format!("parse {} with {}", vn, hexs(p)), format!("parse {} empty {}", vn, hexs(p))],
         _ => vec![format!("parts {} {}", vn, hexs(&p[..size])), format!("clearcks {} {}", vn, hexs(&p[..size])),
                   format!("quartile {} {} {}", vn, hexs(&p[..size]), aux as usize % [48, 128, 128, 256, 256][(v % 5) as usize])],
     }
